@@ -109,6 +109,9 @@ pub fn compare(h: &History, r: &RealOut) -> Option<Result<(), String>> {
             p, r.stdout.len(), h.raw_out.len(), ctx(&r.stdout), ctx(&h.raw_out)
         )));
     }
+    if h.panic().is_none() && r.stderr != h.stderr_text() {
+        return Some(Err(format!("stderr differs: real {:?} / simulated {:?}", r.stderr.chars().take(120).collect::<String>(), h.stderr_text().chars().take(120).collect::<String>())));
+    }
     if let Some((msg, _, _)) = h.panic() {
         if !r.stderr.contains(msg) {
             return Some(Err(format!("both abort, but the real panic message is {:?}, simulated {:?}", r.stderr.lines().nth(1).unwrap_or(""), msg)));
